@@ -690,7 +690,7 @@ def _eval_view(cases):
             if real_af != core.ints(drv['atflat']):
                 findings.append(dict(kind='model', key='view:atflat-model-vs-compiled', detail=dict(real=real_af, model=core.ints(drv['atflat']))))
         out.append(dict(findings=findings, nontrivial=n > 1, sig=lines[len(out)],
-                        tags=dict(stream='view', kview=kr['kernel'], ndim=len(c['shape']), neg=any(s < 0 for s in c['strides']),
+                        tags=dict(stream='view', kview=kr['kernel'], fastpath=bool(kr.get('fast', False)), ndim=len(c['shape']), neg=any(s < 0 for s in c['strides']),
                                   zero=any(s == 0 for s in c['strides']), carray=lines[len(out)].endswith('1'))))
     return out
 
@@ -718,6 +718,10 @@ def _kview_setup(c):
     r = random.Random('kview' + json.dumps(c, sort_keys=True))
     kernel = r.choice(KVIEW_KERNELS)
     shape, nd = c['shape'], len(c['shape'])
+    if nd == 2 and list(c['strides']) == _cstr(shape) and r.random() < 0.6:
+        # a 2-D C-array: half of these cases exercise the binary fast path of py_erode / py_dilate (Round 3: the
+        # driver dispatches like the C++ and runs `fastBinaryView`, the model with unwritten cells)
+        kernel = r.choice(['erode_bool', 'dilate_bool'])
     isbool = kernel in ('erode_bool', 'dilate_bool', 'hitmiss')
     hi = 1 if isbool else (3 if kernel in ('borders', 'cwatershed') else 9)
     mem = [r.randint(0, hi) for _ in range(c['buf'])]
@@ -762,6 +766,11 @@ def _kview_line(c, k):
     return line
 
 
+def _kview_fast(c, k):
+    return (k['kernel'] in ('erode_bool', 'dilate_bool') and len(c['shape']) == 2
+            and list(c['strides']) == _cstr(c['shape']))
+
+
 def _kview_real(c, k):
     """the compiled kernel on the strided view; returns a dict of comparable lists"""
     import mahotas, mahotas.labeled, mahotas.convolve
@@ -770,8 +779,11 @@ def _kview_real(c, k):
                                                                  (np.uint8 if kern in ('erode', 'dilate', 'hitmiss') else np.int64))
     buf = np.array(k['mem']).astype(dtype)
     isz = buf.itemsize
+    # erode_bool / dilate_bool on a C-contiguous view: writeable, so that PyArray_ISCARRAY holds and the compiled code
+    # takes the same branch as the driver (`acarray=1`); everything else stays read-only
+    fast = _kview_fast(c, k)
     v = np.lib.stride_tricks.as_strided(buf[c['base']:], shape=tuple(c['shape']), strides=tuple(isz * s for s in c['strides']),
-                                        writeable=False)
+                                        writeable=fast)
     b = np.array(k['b']).astype(dtype).reshape(k['bshape'])
     if k['blayout'] == 'F':
         b = np.asfortranarray(b)
@@ -865,7 +877,7 @@ def _eval_kview(cases):
                                   detail=dict(model=drv['out'], real=real['out'], setup={x: k[x] for x in ('bshape', 'b', 'mode', 'blayout', 'rank')})))
                 if kern == 'cwatershed' and 'lines' in drv and core.ints(drv['lines']) != real['lines']:
                     f.append(dict(kind='model', key='kview:cwatershed:lines-model-vs-compiled', detail=dict(model=drv['lines'], real=real['lines'])))
-        res.append(dict(findings=f, kernel=kern))
+        res.append(dict(findings=f, kernel=kern, fast=_kview_fast(c, k)))
     return res
 
 
